@@ -109,6 +109,9 @@ def find_powershell_strings(data: bytes) -> list[Node]:
                 else:
                     # In a single quoted string, find the end quote
                     end = data.find(b"'", start)
+                if end < 0:
+                    # The string or FOR loop is never closed, assume it runs to the end of the data
+                    end = len(data)
                 powershell = data[start:end]
             else:
                 # No recognizable context, assume rest of file is all powershell
